@@ -343,6 +343,16 @@ pub fn run_case(case: &Value) -> Value {
             }
         }
     }
+    // C39: after a faulted run, the same input again with a working loader, in the same process
+    if case.get("rerun_clean").and_then(Value::as_bool).unwrap_or(false) {
+        let mut again = case.clone();
+        if let Value::Object(m) = &mut again {
+            m.remove("faults");
+            m.remove("rerun_clean");
+            m.insert("trace".into(), Value::Bool(false));
+        }
+        out.insert("clean".into(), run_case(&again));
+    }
     let l = log.lock().unwrap();
     if !l.is_empty() || case.get("want_calls").is_some() {
         out.insert(
